@@ -41,6 +41,12 @@ def run(ctx) -> None:
         ctx.guard("C04.pairing", length_guard, kind)
     ctx.guard("C04.pairing", pairing_family)
     ctx.guard("C04.alias", trough_alias)
+    # distribute charges the source once per destination occurrence; the volume array is private to the labware
+    from . import c01, c02
+
+    ctx.reuse("C04.once-per-occurrence", c01.pair_distribute, "C01.pair-distribute")
+    ctx.reuse("C04.frame", c02.ctor)
+    ctx.reuse("C04.frame", c02.alias)
 
 
 def _loop_param_seq(fv, seq: ast.AST) -> Optional[str]:
